@@ -17,14 +17,15 @@ theorem good_execute (fuel m : Nat) (s : State) (input : List UInt8) (fault : Op
   obtain ⟨s1, r⟩ := p
   have h0 : Same s ({ s with scanner := { src := input, fault := fault } } : State) := ⟨rfl, rfl, rfl, rfl, rfl⟩
   dsimp only
+  have hd : Same s1 ({ s1 with dsc := s1.dsc ++ s1.scanner.dsc } : State) := ⟨rfl, rfl, rfl, rfl, rfl⟩
   cases r with
-  | ok => exact good_start h0 (good_change_res _ g (by simp) ⟨rfl, rfl, rfl, rfl, rfl⟩)
-  | fuel => exact good_start h0 g
+  | ok => exact good_start h0 (good_change_res _ g (by simp) hd)
+  | fuel => exact good_start h0 (good_end g hd)
   | err e =>
     cases e with
-    | exit => exact good_start h0 (good_change_res _ g (by simp) (Same.rfl' s1))
-    | stop => exact good_start h0 (good_change_res _ g (by simp) ⟨rfl, rfl, rfl, rfl, rfl⟩)
-    | _ => exact good_start h0 g
+    | exit => exact good_start h0 (good_change_res _ g (by simp) hd)
+    | stop => exact good_start h0 (good_change_res _ g (by simp) hd)
+    | _ => exact good_start h0 (good_end g hd)
 
 /-- `NumOps` never decreases -/
 theorem numops_monotone (fuel m : Nat) (s : State) (input : List UInt8) (fault : Option String) :
